@@ -153,10 +153,33 @@ def rule_k1_k2(repo, col):
                construct="def add_constraint", function="CNF.add_constraint")
 
 
+def _negate_helpers(repo, modname):
+    """module-level helpers h(.., node, .., flag, ..) whose decision table is: flag -> <x>.negate(node), not flag -> node.  name -> (index of node, index of flag)"""
+    out = {}
+    m = repo.modules[modname]
+    for name, f in m.functions.items():
+        try:
+            paths = dtable.extract(f.node)
+        except AnalysisError:
+            continue
+        if len(paths) != 2 or not all(p_.end == "return" and len(p_.conds) == 1 for p_ in paths):
+            continue
+        flags = {p_.conds[0][0] for p_ in paths}
+        if len(flags) != 1 or list(flags)[0] not in f.params:
+            continue
+        flag = list(flags)[0]
+        t = {p_.conds[0][1]: p_.value for p_ in paths}
+        for prm in f.params:
+            if prm != flag and t.get(False) == prm and t.get(True) is not None and t[True].endswith(".negate(%s)" % prm):
+                out[name] = (f.params.index(prm), f.params.index(flag))
+    return out
+
+
 def rule_k3(repo, col):
     f = repo.func("problog.cycles", "_break_cycles")
     m = f.module
     paths = dtable.extract(f.node, opaque_loops=True)
+    helpers = _negate_helpers(repo, "problog.cycles")
     problems = []
     n_anc = 0
     for p in paths:
@@ -170,6 +193,17 @@ def rule_k3(repo, col):
                 problems.append("a broken cycle must be recorded in cycles_broken")
         if p.end == "return" and p.value not in ("None",) and ("abs(nodeid) in ancestors", False) in conds:
             neg = dict(conds).get("nodeid < 0")
+            hv = None
+            try:
+                hv = ast.parse(p.value, mode="eval").body
+            except SyntaxError:
+                pass
+            if neg is None and isinstance(hv, ast.Call) and dotted(hv.func) in helpers and not hv.keywords:
+                # the sign is applied by a conditional-negate helper: its flag must be the sign of the literal
+                fl = norm(hv.args[helpers[dotted(hv.func)][1]])
+                if fl != "nodeid < 0":
+                    problems.append("the literal's node is negated under `%s`; it must be negated exactly for a negative literal (nodeid < 0)" % fl)
+                continue
             if neg is True and not p.value.startswith("target.negate("):
                 problems.append("a negative literal must return the negation of the translated node (found %s)" % p.value)
             if neg is False and p.value.startswith("target.negate("):
@@ -233,6 +267,15 @@ def rule_k3b(repo, col):
     arg = norm(calls[0].args[2])
     negs = [x for x in l.body if isinstance(x, ast.If) and any(norm(y) == "newnode = target.negate(newnode)" for y in x.body)]
     neg_guard = norm(negs[0].test) if negs else None
+    if not negs:
+        # the same step through a conditional-negate helper: newnode = h(target, newnode, <guard>)
+        helpers = _negate_helpers(repo, "problog.cycles")
+        for x in l.body:
+            if isinstance(x, ast.Assign) and norm(x.targets[0]) == "newnode" and isinstance(x.value, ast.Call) and dotted(x.value.func) in helpers and not x.value.keywords:
+                ni, fi = helpers[dotted(x.value.func)]
+                if norm(x.value.args[ni]) == "newnode":
+                    negs = [x]
+                    neg_guard = norm(x.value.args[fi])
     if arg == "abs(%s)" % nv:
         ok = neg_guard in ("%s is not None and %s < 0" % (nv, nv), "%s < 0" % nv)
         why = "the node is translated on abs(n); the result must then be negated exactly when n < 0 (found guard %s)" % neg_guard
